@@ -74,7 +74,10 @@ def run(ctx, host=None):
     R2 = chk.rule('C08.R2', 'list_all_objects: index snapshot begins after the loose listing, on a refreshed session', 1)
     R3 = chk.rule('C08.R3', 'every public view with its own index query is covered by a freshness rule or is a tabled statistic', 3)
     R4 = chk.rule('C08.R4', 'clean_storage reloads its session before deciding what to unlink', 1)
+    R5 = chk.rule('C08.R5', 'session life cycle: the cached session is always a new get_session(index) and is closed before it is dropped (premise of every refresh)', 1)
     S = Summaries(ctx)
+    from .common import session_lifecycle
+    session_lifecycle(ctx, chk, R5)
 
     # R1
     for ws in (True, False):
